@@ -16,8 +16,11 @@ import threading
 from unittest import mock
 
 PAUSES = ("before-flush", "fsync", "before-rename")
+MORE_PAUSES = ("before-rename2", "before-remove")        # thorough tier
 VARIANTS = [(flav, fmt, pause, traffic) for flav in ("sync", "async") for fmt in ("json", "pickle") for pause in PAUSES
             for traffic in ("values", "id-request")]
+MORE_VARIANTS = [(flav, fmt, pause, traffic) for flav in ("sync", "async") for fmt in ("json", "pickle") for pause in MORE_PAUSES
+                 for traffic in ("values", "id-request")]
 
 SETUP = ["1;255;0;0;17;2.2", "1;1;0;0;3;light", "1;1;1;0;2;0"]
 TRAFFIC = {"values": ["2;255;0;0;17;2.2", "2;3;0;0;6;a child with a description that makes the new file longer", "2;3;1;0;0;21.5",
@@ -104,14 +107,23 @@ def run_variant(root, v):
         maybe_pause("fsync")
         return real_fsync(fd)
 
+    real_remove = os.remove
+    renames = {}
+
     def rename(a, b):
-        maybe_pause("before-rename")
+        k = renames[threading.get_ident()] = renames.get(threading.get_ident(), 0) + 1
+        maybe_pause("before-rename" if k == 1 else "before-rename2")
         return real_rename(a, b)
+
+    def remove(a):
+        maybe_pause("before-remove")
+        return real_remove(a)
 
     out = {"variant": list(v)}
     errors = []
     with mock.patch.object(P.json if fmt == "json" else P.pickle, "dump", dump), mock.patch.object(os, "fsync", fsync), \
-            mock.patch.object(os, "rename", rename), mock.patch.object(threading, "Timer", _NoTimer):
+            mock.patch.object(os, "rename", rename), mock.patch.object(os, "remove", remove), \
+            mock.patch.object(threading, "Timer", _NoTimer):
         if flav == "sync":
             t1 = threading.Thread(target=pers.schedule_save_sensors)     # what the timer thread runs
             t1.start()
@@ -198,18 +210,22 @@ def judge(o, pid):
                         f"{o['loaded']}, the gateway held {o['held']} when stop() returned (files {o['files']})", True))
     else:
         again = sorted(set(o["ids_given"]) & set(o["ids_after_restart"]))
+        known = sorted(str(n[0]) for n in o.get("held", []) if str(n[0]) in o["ids_after_restart"])
+        if known and not again:
+            out.append(("id-of-known-node-handed-out", f"after the restart id {known} is handed out, which belongs to a node the "
+                        f"gateway held when it was stopped", True))
         if again:
             out.append(("id-handed-out-again", f"id {again} was handed out while a scheduled save was being written, the gateway "
                         f"was stopped, and the restarted gateway hands it out again", True))
     return out
 
 
-def run_all(res, pid):
+def run_all(res, pid, thorough=False):
     from harness import core
     root = str(core.BUILD / "scratch" / ("slow-%d" % os.getpid()))
     n = 0
     try:
-        for v in VARIANTS:
+        for v in VARIANTS + (MORE_VARIANTS if thorough else []):
             if pid == "C06" and v[3] != "id-request":
                 continue
             res.evaluations += 1
